@@ -3,8 +3,9 @@ Driver side of engine `renumber` (C12): parses an AIG case line, runs `Flussab.A
 and prints the same observation string as `harness/src/eng_renumber.rs`.
 
 Case line:
-  renumber cfg=<trim><hash><fold> inputs=<l,..|-> latches=<state:next:init,..|-> gates=<out:in0:in1,..|->
-           outputs=<l,..|-> bad=.. constraints=.. justice=<l,..;l,..|-> (empty group = `e`) fairness=..
+  renumber cfg=<trim><hash><fold> [ty=<u8|u16|u32|u64|usize>] inputs=<l,..|-> latches=<state:next:init,..|->
+           gates=<out:in0:in1,..|-> outputs=<l,..|-> bad=.. constraints=.. justice=<l,..;l,..|-> (empty group = `e`)
+           fairness=..     (`ty`: literal type of the implementation side; all codes fit it, the model is on `Nat`)
   renumber deep=<chain|cycle> n=<N>      (implementation-only stack-depth case; see `deepObs`)
   renumber cfg=.. ni=<N> nl=<N> ord=.. num=.. pol=.. gs=<gate segments> ln=.. outputs=.. ..   (scale case:
            generator spec, see `expandSpec`; the observation is a digest of the full one)
@@ -298,7 +299,10 @@ def runRenumberCase (line : String) : String × String :=
     outputs := parseNats (field fs "outputs"), bad := parseNats (field fs "bad"),
     constraints := parseNats (field fs "constraints"), justice := parseJustice (field fs "justice"),
     fairness := parseNats (field fs "fairness"), gates := parseGates (field fs "gates") }
-  let cfgTag := s!"trim={b2s cfg.trim} hash={b2s cfg.hash} fold={b2s cfg.fold}"
+  -- `ty`: the literal type the implementation side instantiates (`usize` if absent); the model works
+  -- on codes as numbers, every code of the case fits the type
+  let ty := if (field fs "ty").isEmpty then "usize" else field fs "ty"
+  let cfgTag := s!"trim={b2s cfg.trim} hash={b2s cfg.hash} fold={b2s cfg.fold} ty={ty}"
   match renumberStack cfg a with
   | .ok (o, m) =>
     let (e, f, h) := classify cfg a o m
